@@ -261,3 +261,51 @@ Proof.
       [apply reach_init | vm_compute; reflexivity].
   - vm_compute. repeat split.
 Qed.
+
+(** abort_recording (T:52-59, not overridden by the wrapper): [recording.close()] on the recording it is given.
+    Asynchronously that is the AsyncRecording - the request is carried out at the caller ([CProduce i] on an [Abort]
+    request), it is never blocked (not even while the flusher holds the lock), never refused, enqueues nothing, and
+    leaves buffer, flusher, applied operations, wrapped cassette and enqueue order as they are: the writes and the save
+    requested BEFORE the abort stay pending and are applied (so a recording saved and then aborted is stored, as it is
+    synchronously).  All theorems above hold for workloads with aborts: they are about the enqueued requests [enq]. *)
+Theorem C12_abort_never_blocked : forall strict s i x p',
+  take_from i (pending s) = Some (x, p') -> is_abort x = true ->
+  exists s', step_fn strict (CProduce i) s = Some s'.
+Proof. exact abort_never_blocked. Qed.
+Print Assumptions C12_abort_never_blocked.
+
+Theorem C12_abort_not_seen_by_wrapped : forall strict s s' i x p',
+  take_from i (pending s) = Some (x, p') -> is_abort x = true ->
+  step_fn strict (CProduce i) s = Some s' ->
+  buffer s' = buffer s /\ fl s' = fl s /\ applied s' = applied s /\ wstore s' = wstore s /\ enq s' = enq s /\
+  stop s' = stop s /\ aclosed s' = o_rec x :: aclosed s /\ pending s' = p'.
+Proof. exact abort_not_seen_by_wrapped. Qed.
+Print Assumptions C12_abort_not_seen_by_wrapped.
+
+(** synchronously an abort stores nothing either (it closes the wrapped recording object and returns) *)
+Theorem C12_abort_sync_saved : forall st x, is_abort x = true ->
+  saved (fst (apply_op st x)) = saved st /\
+  (o_fail x = false -> nm_get (o_rec x) (live st) <> None -> snd (apply_op st x) = true).
+Proof. exact abort_sync_saved. Qed.
+Print Assumptions C12_abort_sync_saved.
+
+(** three recordings: 0 saved and then aborted (clean-up after the save, while the save is still pending), 1 aborted
+    instead of saved, 2 saved after an abort; a write after the abort is refused at the caller.  Stored: 0 and 2 - the
+    same stored recordings as recording the whole history (aborts included) synchronously. *)
+Example C12_example_abort :
+  let l := [Op 0 0 (SetData 0%N (VInt 1)) false; Op 1 1 (SetData 0%N (VInt 2)) false; Op 2 2 (SetData 0%N (VInt 3)) false;
+            Op 3 0 Save false; Op 4 0 Abort false; Op 5 1 Abort false; Op 6 1 (SetData 1%N (VInt 4)) false;
+            Op 7 2 Abort false; Op 8 2 Save false] in
+  exists s, reach 3 [l] s /\ fl s = Done /\ length (applied s) = 5 /\
+            map (fun e => o_idx (snd (fst e))) (filter (fun e => negb (snd e)) (hist s)) = [4; 5; 6; 7] /\
+            saved (wstore s) = [(0, ([(0%N, VInt 1)], [])); (2, ([(0%N, VInt 3)], []))] /\
+            saved (wstore s) = saved (sync_apply (init_store 3) (map (fun x => (0, x)) l)) /\
+            wstore s = sync_apply (init_store 3) (enq s).
+Proof.
+  eexists. split.
+  - eapply (run_schedule_reach 3 _ true
+      [CProduce 0; CProduce 0; CProduce 0; CProduce 0; CCheck false; CLock; CProduce 0; CSwap; CExec; CProduce 0;
+       CReject 0; CProduce 0; CProduce 0; CClose; CExec; CExec; CExec; CWait; CWake; CCheck true; CLock; CSwap; CExec;
+       CDone]); [apply reach_init | vm_compute; reflexivity].
+  - vm_compute. repeat split.
+Qed.
